@@ -41,13 +41,16 @@ func (r *Raft) replyRPC(rpc *rpc) (resetTimer bool) {
 
 	// handle identity req
 	if req, ok := rpc.req.(*identityReq); ok {
-		if r.cid != req.cid || r.nid != req.nid {
+		matched := r.cid == req.cid && r.nid == req.nid
+		if !matched {
 			rpc.resp = rpcIdentity.createResp(r, identityMismatch, nil)
 		} else {
 			rpc.resp = rpcIdentity.createResp(r, success, nil)
 		}
 		close(rpc.done)
-		return req.src == r.leader
+		// one who dialed us taking us for a different cluster or node,
+		// is not our leader, even if its id is same as our leader's id
+		return matched && req.src == r.leader
 	}
 
 	if trace {
